@@ -401,6 +401,26 @@ def clause_verify(R, rule):
             if evn == "sum" and not ctx.quiet and kw["frame"].inst is ver:
                 stt = kw["st"]
                 sums.append((set(stt.taint.get(kw["item"].vid, set())), stt.itv[kw["n"].vid], stt.itv[kw["item"].vid]))
+            elif evn == "assign" and not ctx.quiet and kw["frame"].inst is ver:
+                # the norm written as accumulation loops: squares x * x in verify's own body (term count not observed)
+                try:
+                    from fv.mir import kind_of
+                    fr = kw["frame"]
+                    stmt = fr.body.blocks[kw["bb"]]["statements"][kw["si"]]
+                    k_, v_ = kind_of(stmt["kind"])
+                    rk, rv = kind_of(v_[1])
+                    if rk in ("BinaryOp", "CheckedBinaryOp") and rv[0] in ("Mul", "MulUnchecked"):
+                        stt = kw["st"]
+                        x_, y_ = S.E.operand(stt, fr, rv[1]), S.E.operand(stt, fr, rv[2])
+                        if type(x_) is I and type(y_) is I and x_.vid == y_.vid:
+                            lo_, hi_ = stt.itv[x_.vid]
+                            labs = set(stt.taint.get(x_.vid, set()))
+                            base = {l.split("[")[0] for l in labs}
+                            ent = (base, None, (0 if lo_ <= 0 <= hi_ else min(lo_ * lo_, hi_ * hi_), max(lo_ * lo_, hi_ * hi_)))
+                            if ent not in sums:
+                                sums.append(ent)
+                except Exception:
+                    pass
         ctx.observers.append(obs)
         st = St()
         st.res[("dummy",)] = {}
@@ -424,7 +444,7 @@ def clause_verify(R, rule):
         s1s = [s for s in sums if s[0] and all(l.startswith("s1") for l in s[0])]
         s2s = [s for s in sums if s[0] and all(l.startswith("s2") for l in s[0])]
         half = (Q // 2) ** 2
-        R.check(len(sums) == 2 and len(s1s) == 1 and len(s2s) == 1 and s1s[0][1] == (NN, NN) and s2s[0][1] == (NN, NN) and s1s[0][2][0] >= 0 and s1s[0][2][1] <= half and s2s[0][2][0] >= 0,
+        R.check(len(sums) == 2 and len(s1s) == 1 and len(s2s) == 1 and s1s[0][1] in ((NN, NN), None) and s2s[0][1] in ((NN, NN), None) and s1s[0][2][0] >= 0 and s1s[0][2][1] <= half and s2s[0][2][0] >= 0,
                 rule, site + " norm", f"the norm is the sum over all coefficients of (centred s1)^2 (each <= {half}) plus the sum over all coefficients of s2^2",
                 f"sums seen: {sums}", key=f"verify|{N}|norm")
         h2p = [c for c in calls if c[0] == "hash_to_point"]
